@@ -101,17 +101,22 @@ CLAIMED = {
         "format_files, and `--diff` output text, are not covered.",
    ref="DESIGN.md section 0.7, C09"),
  "C10": dict(
-   cat="model_checking", tech="enum-level symbolic execution of rustc MIR + SMT (z3): the decision part of Lexer::handle_indentation from a symbolic column and a symbolic stack of 1..=3 open levels",
+   cat="model_checking", tech="enum-level symbolic execution of rustc MIR + SMT (z3): Lexer::handle_indentation from symbolic source characters, a symbolic column and a symbolic stack of open levels, against the documented decision and a reference in SMT",
    text="Solver-based, bounded, ONE mechanism of the property (the first the anchors name: indent stack and pending dedents): the part of Lexer::handle_indentation that decides, from "
         "the column of a logical line's first character and the stack of open indentation levels, which INDENT / DEDENT tokens, pending dedents and errors are produced is executed from "
         "the MIR of incan_syntax with the column and the levels (0 < a < b) symbolic. z3 decides per path (L2) that the decision is the documented one - INDENT iff the column is right of "
         "the innermost level, one DEDENT per open level right of the column, the inconsistent-indentation error iff the column is no remaining level - and for every pair of paths with "
         "different outcomes (L1) that no two order-isomorphic states (column, levels) take them: block structure depends on relative indentation only, so a consistent re-indentation "
         "(2 / 4 spaces, tabs as 4 columns) takes the same decision on every line. A deviation is confirmed natively before it is reported: one program in 11 layouts (2 / 3 / 8 spaces, "
-        "tabs, CRLF, trailing spaces, blank lines, comments, line breaks in brackets) must parse to the same span-free AST and an ill-indented program must be refused (`replay lexlayout`, dev and release).",
-   note="Kernel-only: the counting loop before the decision (space = 1, tab = 4 columns, CR skipped, blank and comment-only lines return early), the bracket-depth suppression of "
-        "NEWLINE / INDENT in lexer/mod.rs, end-of-file dedents and the parser's newline skipping inside literals are NOT covered - they iterate over the source text (Peekable<CharIndices>), "
-        "for which the MIR executor has no model, and under Kani one lexer run on 3 symbolic layout characters does not finish (20+ min, 6 GB). Stacks deeper than 3 levels are outside the bound.",
+        "tabs, CRLF, trailing spaces, blank lines, comments, line breaks in brackets) must parse to the same span-free AST and an ill-indented program must be refused (`replay lexlayout`, dev and release). "
+        "X-indent_count: the WHOLE of handle_indentation on the next N = 3 (thorough 5) symbolic characters of the source (any scalar value; Lexer::peek / advance / is_at_end replaced by a "
+        "character-stream stand-in) and stacks [0, a], [0, a, b]: z3 decides for every path that its outcome is that of a reference written as nested ite terms - space = 1 column, tab = 4, "
+        "CR = 0; a line starting (after white space) with `#` or a line feed is invisible (no token, no level change, still at line start, consumed through its line feed); nothing at end of "
+        "input; otherwise the documented decision for the counted column, the line's first character left unconsumed.",
+   note="Kernel-only: one call of handle_indentation. The composition over a whole file (scan_token's dispatch, the bracket-depth suppression of NEWLINE / INDENT in lexer/mod.rs, "
+        "end-of-file dedents, the parser's newline skipping inside literals) is NOT covered - under Kani one lexer run on 3 symbolic layout characters does not finish (20+ min, 6 GB), and "
+        "the token scanners slice the source string, for which the MIR executor has no model. Stand-ins: peek / advance / is_at_end as a character stream (their bodies drive a "
+        "Peekable<CharIndices>); Token::new, Span::new, CompileError::new, format! summarised. Leading runs longer than N characters and stacks deeper than 3 (thorough 8) levels are outside the bound.",
    ref="DESIGN.md section 0.8, C10"),
  "C12": dict(
    cat="model_checking", tech="enum-level symbolic execution of rustc MIR + SMT (z3): generate_cargo_toml with the dependency HashMap as a symbolic map iterated in both directions",
